@@ -268,6 +268,37 @@ func normSegs(segs []Seg) []Seg {
 
 // arrSub extracts [lo,hi) as a list of segments (copies). ok=false if cut points are unresolved.
 func (ex *Exec) arrSub(st *State, a *ArrayV, lo, hi *Term) ([]Seg, bool) {
+	// fast path: both cut points are exact segment boundaries
+	{
+		bi, bj := -1, -1
+		b := constTerm(0)
+		for i := 0; i <= len(a.Segs); i++ {
+			if bi < 0 && termEq(b, lo) {
+				bi = i
+			}
+			if bi >= 0 && termEq(b, hi) {
+				bj = i // keep the last boundary equal to hi (zero-length runs in between are harmless)
+			}
+			if i < len(a.Segs) {
+				if a.Segs[i].Run != nil {
+					b = termAdd(b, a.Segs[i].Run.Len, 1)
+				} else {
+					b = termAdd(b, constTerm(int64(len(a.Segs[i].Elems))), 1)
+				}
+			}
+		}
+		if bi >= 0 && bj >= bi {
+			var out []Seg
+			for _, s := range a.Segs[bi:bj] {
+				if s.Run != nil {
+					out = append(out, Seg{Run: s.Run})
+				} else {
+					out = append(out, Seg{Elems: append([]Val{}, s.Elems...)})
+				}
+			}
+			return normSegs(out), true
+		}
+	}
 	var out []Seg
 	base := constTerm(0)
 	for _, s := range a.Segs {
@@ -280,30 +311,31 @@ func (ex *Exec) arrSub(st *State, a *ArrayV, lo, hi *Term) ([]Seg, bool) {
 		end := termAdd(base, segLen, 1)
 		// overlap of [base,end) with [lo,hi)
 		// skip if end <= lo
-		if le, k := st.termLE(end, lo); !k {
-			return nil, false
-		} else if le {
+		if le, k := st.termLE(end, lo); k && le {
 			base = end
 			continue
+		} else if !k {
+			// the segment may be empty; that is harmless when the requested range starts at or before it
+			if ge, k2 := st.termLE(lo, base); !(k2 && ge) {
+				return nil, false
+			}
 		}
-		// stop if base >= hi
-		if le, k := st.termLE(hi, base); !k {
-			return nil, false
-		} else if le {
+		// stop if base >= hi (when undecided the remaining piece may be empty, which is harmless)
+		if le, k := st.termLE(hi, base); k && le {
 			break
 		}
 		// start = max(lo, base), stop = min(hi,end)
 		start := base
-		if lt, k := st.termLT(base, lo); !k {
-			return nil, false
-		} else if lt {
+		if le, k := st.termLE(base, lo); k && le {
 			start = lo
+		} else if !k {
+			return nil, false
 		}
 		stop := end
-		if lt, k := st.termLT(hi, end); !k {
-			return nil, false
-		} else if lt {
+		if le, k := st.termLE(hi, end); k && le {
 			stop = hi
+		} else if !k {
+			return nil, false
 		}
 		relS := termAdd(start, base, -1)
 		n := termAdd(stop, start, -1)
@@ -468,4 +500,111 @@ func (ex *Exec) storePath(st *State, obj int, path []PathElem, v Val) bool {
 		}
 	}
 	return false
+}
+
+// dropEmptyRuns removes runs whose length is known to be 0 in this state.
+func (st *State) dropEmptyRuns(segs []Seg) []Seg {
+	var out []Seg
+	for _, s := range segs {
+		if s.Run != nil {
+			if _, hi, ok := st.termRange(s.Run.Len); ok && hi <= 0 {
+				continue
+			}
+		}
+		out = append(out, s)
+	}
+	return normSegs(out)
+}
+
+// havocReachable forgets every heap object reachable from the given values and all global objects
+// (effect of an opaque call).
+func (ex *Exec) havocReachable(st *State, why string, roots []Val) {
+	st.note("havoc reachable: %s", why)
+	seen := map[int]bool{}
+	var work []int
+	var visit func(v Val)
+	visit = func(v Val) {
+		switch x := v.(type) {
+		case *PtrV:
+			if !x.Nil && !x.Unk && !seen[x.Obj] {
+				seen[x.Obj] = true
+				work = append(work, x.Obj)
+			}
+		case *SliceV:
+			if !x.Nil && !x.Unk && x.Obj >= 0 && !seen[x.Obj] {
+				seen[x.Obj] = true
+				work = append(work, x.Obj)
+			}
+		case *IfaceV:
+			if x.V != nil {
+				visit(x.V)
+			}
+		case *FuncV:
+			for _, b := range x.Bindings {
+				visit(b)
+			}
+		case *StructV:
+			for _, f := range x.Fields {
+				visit(f)
+			}
+		case *ArrayV:
+			for _, sg := range x.Segs {
+				for _, e := range sg.Elems {
+					visit(e)
+				}
+			}
+		case *TupleV:
+			for _, e := range x.Vs {
+				visit(e)
+			}
+		case *StrV:
+			if x.Bytes != nil {
+				visit(x.Bytes)
+			}
+		case *MapV:
+			if x.Obj != 0 && !seen[x.Obj] {
+				seen[x.Obj] = true
+				work = append(work, x.Obj)
+			}
+		}
+	}
+	for _, r := range roots {
+		visit(r)
+	}
+	for _, id := range ex.globals {
+		if !seen[id] {
+			seen[id] = true
+			work = append(work, id)
+		}
+	}
+	for len(work) > 0 {
+		id := work[len(work)-1]
+		work = work[:len(work)-1]
+		if v, ok := st.heap[id]; ok {
+			visit(v)
+		}
+	}
+	for id := range seen {
+		v, ok := st.heap[id]
+		if !ok || ex.constObj[id] {
+			continue
+		}
+		t := ex.objType[id]
+		switch x := v.(type) {
+		case *ArrayV:
+			src := ex.syms.Fresh("havoc", 8, false).Name
+			st.heap[id] = &ArrayV{Elem: x.Elem, Segs: []Seg{{Run: &Run{Src: src, Off: constTerm(0), Len: arrLen(x)}}}}
+		case *BufV:
+			src := ex.syms.Fresh("havocbuf", 8, false).Name
+			L := ex.syms.Fresh("len", 64, true)
+			L.Lo = 0
+			st.heap[id] = &BufV{Data: &ArrayV{Elem: types.Typ[types.Uint8], Segs: []Seg{{Run: &Run{Src: src, Off: constTerm(0), Len: symTerm(L)}}}}}
+		default:
+			if t != nil {
+				st.heap[id] = ex.topOf(st, t, "havoc")
+			} else {
+				st.heap[id] = &TopV{}
+			}
+		}
+	}
 }
